@@ -365,8 +365,10 @@ class DocHarness(Harness):
     tv_phase = 0
     required_covers = ('heading', 'nested-heading', 'list', 'quote', 'wellnested-input', 'non-wellnested-input', 'merged-item')
 
-    def __init__(self, prog, tier='quick', budget=None, max_nest=None, kinds=KINDS):
+    def __init__(self, prog, tier='quick', budget=None, max_nest=None, kinds=KINDS, name=None, covers=None):
         Harness.__init__(self, prog, tier)
+        if name: self.name = name
+        if covers is not None: self.required_covers = covers
         self.budget = budget or (4 if tier == 'quick' else 5)
         self.max_nest = max_nest or 2
         self.max_items = 3
@@ -477,7 +479,7 @@ class DocHarness(Harness):
     def role_of(self, v, tree):
         if v['law'] == 'C03.no-panic' and 'section block panic' in (v['info'].get('msg') or ''):
             return 'list-item-first-block=' + first_bad_item_kind(tree)
-        if v['law'] == 'C01.tokens-conserved' and 'item starts with a list and has further blocks' in (v['info'].get('why') or ''):
+        if has_list_first_item_with_more(tree):
             return 'item-starts-with-list-and-has-further-blocks'
         return 'general'
 
@@ -598,6 +600,18 @@ def describe(blocks):
         else:
             out.append('%s(%s)' % (k, b.get('t', '')))
     return ', '.join(out)
+
+def has_list_first_item_with_more(blocks):
+    for b in blocks:
+        if b['k'] == 'Quote' and has_list_first_item_with_more(b['c']):
+            return True
+        if b['k'] in ('Bullet', 'Ordered'):
+            for it in b['items']:
+                if it and it[0]['k'] in ('Bullet', 'Ordered') and len(it) > 1:
+                    return True
+                if has_list_first_item_with_more(it):
+                    return True
+    return False
 
 def first_bad_item_kind(blocks):
     for b in blocks:
